@@ -943,6 +943,14 @@ func (e *Exec) filterAddrs(c *ast.CallExpr, in Val, preds []Val) Val {
 	e.declareFun("fsrc", []string{SInt, SInt}, SInt)
 	e.addFact(fmt.Sprintf("(forall ((j Int)) (! (=> (and (<= 0 j) (< j %s)) (and (<= 0 (fsrc %s j)) (< (fsrc %s j) %s) (= (select %s j) (select (select %s %s) (+ %s (fsrc %s j)))))) :pattern ((select %s j))))",
 		out.Len, base, base, src.Len, arr, h, src.Base, src.Off, base, arr))
+	// completeness (an element is dropped only if some predicate returned false on it) is collected per predicate
+	type predRun struct {
+		local []string
+		res   string
+		hx    string
+	}
+	var runs []predRun
+	allEvaluated := true
 	for pi, pv := range preds {
 		// symbolic element
 		hx := e.fresh("felem", SInt)
@@ -985,6 +993,7 @@ func (e *Exec) filterAddrs(c *ast.CallExpr, in Val, preds []Val) Val {
 		e.st = saved
 		if resT == "" {
 			e.warn("FilterAddrs predicate %d could not be evaluated symbolically", pi)
+			allEvaluated = false
 			continue
 		}
 		_ = pcT
@@ -993,6 +1002,7 @@ func (e *Exec) filterAddrs(c *ast.CallExpr, in Val, preds []Val) Val {
 		if e.negateFilter {
 			resT = mkNot(resT) // slices.DeleteFunc keeps the elements for which the function returned false
 		}
+		runs = append(runs, predRun{local: append([]string{}, local...), res: resT, hx: hx})
 		body := mkAnd(append(local, resT)...)
 		elemAt := fmt.Sprintf("(select %s j!f)", arr)
 		hn := symNum(hx)
@@ -1007,6 +1017,36 @@ func (e *Exec) filterAddrs(c *ast.CallExpr, in Val, preds []Val) Val {
 		}
 		body = replaceSymbol(body, hx, elemAt)
 		e.addFact(fmt.Sprintf("(forall ((j!f Int)) (! (=> (and (<= 0 j!f) (< j!f %s)) %s) :pattern ((select %s j!f))))", out.Len, body, arr))
+	}
+	// completeness: every input element is kept (at position fidx) unless one of the predicates returned false on it
+	// (one run of each predicate per input element; symbols created by a run become functions of the input index)
+	if allEvaluated && len(runs) > 0 {
+		e.declareFun("fkept", []string{SInt, SInt}, SBool)
+		e.declareFun("fidx", []string{SInt, SInt}, SInt)
+		inAt := fmt.Sprintf("(select (select %s %s) (+ %s k!c))", h, src.Base, src.Off)
+		var locals, negs []string
+		for _, r := range runs {
+			body := mkAnd(r.local...)
+			res := r.res
+			hn := symNum(r.hx)
+			for _, name := range freshSymbolsAfter(mkAnd(body, res), hn) {
+				srt, ok := e.declared[name]
+				if !ok || strings.HasPrefix(srt, "(") && !strings.HasPrefix(srt, "(Array") {
+					continue
+				}
+				fd := "fd." + name
+				e.declareFun(fd, []string{SInt}, srt)
+				body = replaceSymbol(body, name, "("+fd+" k!c)")
+				res = replaceSymbol(res, name, "("+fd+" k!c)")
+			}
+			locals = append(locals, replaceSymbol(body, r.hx, inAt))
+			negs = append(negs, mkNot(replaceSymbol(res, r.hx, inAt)))
+		}
+		kept := fmt.Sprintf("(fkept %s k!c)", base)
+		e.addFact(fmt.Sprintf("(forall ((k!c Int)) (! (=> (and (<= 0 k!c) (< k!c %s)) (and %s (or %s %s))) :pattern (%s)))",
+			src.Len, mkAnd(locals...), kept, mkOr(negs...), inAt))
+		e.addFact(fmt.Sprintf("(forall ((k!c Int)) (! (=> (fkept %s k!c) (and (<= 0 (fidx %s k!c)) (< (fidx %s k!c) %s) (= (fsrc %s (fidx %s k!c)) k!c))) :pattern ((fkept %s k!c))))",
+			base, base, base, out.Len, base, base, base))
 	}
 	return out
 }
